@@ -562,7 +562,10 @@ class PopulationBalanceModel:
         dXdt = (self._netFlux[:-1] - self._netFlux[1:])
 
         #Find size class for nucleated particles
+        #A radius below the first boundary belongs to the first class (not index -1, the largest class)
         nRad = np.argmax(self.PSDbounds > nucRadius) - 1
+        if nucRadius < self.PSDbounds[0]:
+            nRad = 0
         dXdt[nRad] += nucRate
 
         return dXdt
@@ -614,7 +617,10 @@ class PopulationBalanceModel:
         dXdt = (self._netFlux[:-1] - self._netFlux[1:])
 
         #Find size class for nucleated particles
+        #A radius below the first boundary belongs to the first class (not index -1, the largest class)
         nRad = np.argmax(self.PSDbounds > nucRadius) - 1
+        if nucRadius < self.PSDbounds[0]:
+            nRad = 0
         dXdt[nRad] += nucRate
 
         return dXdt
